@@ -26,8 +26,8 @@ CONSTANTS Configs,    \* set of configuration records explored by the model run
           GroupTable, \* group name -> set of real-space rotations (states stay small)
           Variant     \* "repaired" | "pinned"
 
-VARIABLES pc, cfg, eff, isShift, hasSym, map, ir, weights
-vars == <<pc, cfg, eff, isShift, hasSym, map, ir, weights>>
+VARIABLES pc, cfg, group, eff, isShift, hasSym, map, ir, weights
+vars == <<pc, cfg, group, eff, isShift, hasSym, map, ir, weights>>
 
 (* A configuration:                                                          *)
 (*   level  "grid"  (a direct GridPoints(...) call) | "api" (Phonopy.init_mesh) *)
@@ -38,7 +38,9 @@ vars == <<pc, cfg, eff, isShift, hasSym, map, ir, weights>>
 (*   grp    name of the real-space point group handed over (GroupTable)      *)
 
 None == <<>>
-Rots(c) == GroupTable[c.grp]
+(* the group of the chosen configuration is looked up once (Start) and kept in the   *)
+(* variable group: TLC would re-evaluate the whole table at every reference otherwise *)
+Rots(c) == group
 NPts(m) == m[1] * m[2] * m[3]
 (* spglib's address <-> index convention: first index runs fastest *)
 AddrOf(m, i) == <<i % m[1], (i \div m[1]) % m[2], i \div (m[1] * m[2])>>
@@ -249,11 +251,12 @@ IsOrbitMinMap(c, m, sh, opset, mp) ==
       /\ \A p \in reps : \A j \in img[p] : mp[j + 1] = p
 
 Init ==
-  /\ pc = "choose" /\ cfg = [level |-> "none"] /\ eff = [mesh |-> <<1,1,1>>]
+  /\ pc = "choose" /\ cfg = [level |-> "none"] /\ group = {} /\ eff = [mesh |-> <<1,1,1>>]
   /\ isShift = None /\ hasSym = FALSE /\ map = <<>> /\ ir = <<>> /\ weights = <<>>
 
 Start(c) ==
   /\ cfg' = c
+  /\ group' = GroupTable[c.grp]
   /\ eff' = [mesh |-> c.mesh, gamma |-> c.gamma, tr |-> c.tr, sym |-> c.sym, generic |-> FALSE]
   /\ pc' = IF c.len THEN "length" ELSE IF c.level = "api" THEN "init" ELSE "shift"
   /\ UNCHANGED <<isShift, hasSym, map, ir, weights>>
@@ -267,14 +270,14 @@ LengthToMesh ==
   /\ eff' = [eff EXCEPT !.mesh = Length2Mesh(cfg.mesh, Rots(cfg)),
                         !.gamma = IF cfg.level = "api" THEN TRUE ELSE eff.gamma]
   /\ pc' = IF cfg.level = "api" THEN "init" ELSE "shift"
-  /\ UNCHANGED <<cfg, isShift, hasSym, map, ir, weights>>
+  /\ UNCHANGED <<cfg, group, isShift, hasSym, map, ir, weights>>
 
 (* MeshBase.__init__: is_time_reversal = (is_time_reversal and is_mesh_symmetry) *)
 InitMesh ==
   /\ pc = "init"
   /\ eff' = [eff EXCEPT !.tr = cfg.tr /\ cfg.sym]
   /\ pc' = "shift"
-  /\ UNCHANGED <<cfg, isShift, hasSym, map, ir, weights>>
+  /\ UNCHANGED <<cfg, group, isShift, hasSym, map, ir, weights>>
 
 (* GridPoints.__init__: zero/half shifts become bits; any other shift switches the   *)
 (* symmetry search off and is added to the q-points afterwards.                      *)
@@ -289,7 +292,7 @@ Shift2Boolean ==
                 /\ eff' = [eff EXCEPT !.generic = TRUE, !.sym = FALSE,
                                       !.tr = IF Variant = "pinned" THEN eff.tr ELSE FALSE]
   /\ pc' = "sym"
-  /\ UNCHANGED <<cfg, hasSym, map, ir, weights>>
+  /\ UNCHANGED <<cfg, group, hasSym, map, ir, weights>>
 
 (* GridPoints._has_mesh_symmetry: mesh numbers of equivalent axes must agree          *)
 (* [D10] repaired: so must the shift bits (pinned: mesh numbers only)                 *)
@@ -300,7 +303,7 @@ HasMeshSymmetry ==
          se == PairEq(isShift)
      IN  hasSym' = \A k \in I3 : eq[k] => (me[k] /\ (Variant = "pinned" \/ se[k]))
   /\ pc' = "reduce"
-  /\ UNCHANGED <<cfg, eff, isShift, map, ir, weights>>
+  /\ UNCHANGED <<cfg, group, eff, isShift, map, ir, weights>>
 
 (* operations handed to the reduction (a state function: fixed once pc = "reduce") *)
 UsedOps == IF eff.sym /\ hasSym THEN RecOps(Rots(cfg), eff.tr) ELSE RecOps({Id3}, eff.tr)
@@ -310,7 +313,7 @@ ReduceWith(mp) ==
   /\ pc = "reduce"
   /\ map' = mp
   /\ pc' = "extract"
-  /\ UNCHANGED <<cfg, eff, isShift, hasSym, ir, weights>>
+  /\ UNCHANGED <<cfg, group, eff, isShift, hasSym, ir, weights>>
 
 Reduce == ReduceWith(OrbitMinMap(cfg, eff.mesh, isShift, UsedOps))
 
@@ -321,7 +324,7 @@ ExtractIr ==
      IN  /\ ir' = u
          /\ weights' = [k \in 1..Len(u) |-> Cardinality({i \in 1..Len(map) : map[i] = u[k]})]
   /\ pc' = "done"
-  /\ UNCHANGED <<cfg, eff, isShift, hasSym, map>>
+  /\ UNCHANGED <<cfg, group, eff, isShift, hasSym, map>>
 
 Next == Choose \/ LengthToMesh \/ InitMesh \/ Shift2Boolean \/ HasMeshSymmetry \/ Reduce \/ ExtractIr
 Spec == Init /\ [][Next]_vars
